@@ -30,16 +30,16 @@ kernel molecular_rnvrnt: pybrops/popgen/cmat/DenseMolecularCoancestryMatrix.py :
     slice: targets ['rnvrnt'] -> rnvrnt
 kernel molecular_center: pybrops/popgen/cmat/DenseMolecularCoancestryMatrix.py :: DenseMolecularCoancestryMatrix.from_gmat  sha=ee47edae6e5ccd68  ok
     slice: targets ['X'] -> X
-kernel vanraden_center: pybrops/popgen/cmat/DenseVanRadenCoancestryMatrix.py :: DenseVanRadenCoancestryMatrix.from_gmat  sha=1e8cbfcce6d5ee25  FAILED
+kernel vanraden_center: pybrops/popgen/cmat/DenseVanRadenCoancestryMatrix.py :: DenseVanRadenCoancestryMatrix.from_gmat  sha=caa7730088fa4775  ok
     slice: targets ['M', 'Z'] -> Z
     out of scope (parameter): if p_anc is None:
-    vanraden_center (pybrops/popgen/cmat/DenseVanRadenCoancestryMatrix.py:DenseVanRadenCoancestryMatrix.from_gmat): Untranslatable: call `gmat.tacount()`
-kernel vanraden_scale: pybrops/popgen/cmat/DenseVanRadenCoancestryMatrix.py :: DenseVanRadenCoancestryMatrix.from_gmat  sha=1e8cbfcce6d5ee25  ok
+    out of scope (parameter): X = gmat.tacount()
+kernel vanraden_scale: pybrops/popgen/cmat/DenseVanRadenCoancestryMatrix.py :: DenseVanRadenCoancestryMatrix.from_gmat  sha=caa7730088fa4775  ok
     slice: targets ['G_scale'] -> G_scale
     out of scope (parameter): if p_anc is None:
-kernel vanraden_cell: pybrops/popgen/cmat/DenseVanRadenCoancestryMatrix.py :: DenseVanRadenCoancestryMatrix.from_gmat  sha=1e8cbfcce6d5ee25  ok
+kernel vanraden_cell: pybrops/popgen/cmat/DenseVanRadenCoancestryMatrix.py :: DenseVanRadenCoancestryMatrix.from_gmat  sha=caa7730088fa4775  ok
     slice: targets ['G'] -> G
-    out of scope (parameter): G_scale = 1.0 / (2.0 * p_anc.dot(1.0 - p_anc))
+    out of scope (parameter): G_scale = 1.0 / (float(gmat.ploidy) * p_anc.dot(1.0 - p_anc))
     out of scope (parameter zz): `Z.dot(Z.T)`
 kernel yang_z: pybrops/popgen/cmat/DenseYangCoancestryMatrix.py :: DenseYangCoancestryMatrix.from_gmat  sha=24ac2f106b25c483  ok
     slice: targets ['M', 'Z', 'Z_scale'] -> Z
@@ -111,11 +111,14 @@ def molecular_center {α : Type} [Sub α] [OfNat α 1] (X : α) : α :=
   X
 
 /-- pybrops/popgen/cmat/DenseVanRadenCoancestryMatrix.py :: DenseVanRadenCoancestryMatrix.from_gmat; model counterpart: Z = X - ploidy p -/
--- NOT TRANSLATED: vanraden_center (pybrops/popgen/cmat/DenseVanRadenCoancestryMatrix.py:DenseVanRadenCoancestryMatrix.from_gmat): Untranslatable: call `gmat.tacount()`
+def vanraden_center {α : Type} [Sub α] [Mul α] (p_anc : α) (ploidy : α) (X : α) : α :=
+  let M := (p_anc * ploidy)
+  let Z := (X - M)
+  Z
 
 /-- pybrops/popgen/cmat/DenseVanRadenCoancestryMatrix.py :: DenseVanRadenCoancestryMatrix.from_gmat; model counterpart: 1 / (ploidy * sum p (1-p)) -/
-def vanraden_scale {α : Type} [Add α] [Sub α] [Mul α] [Div α] [OfNat α 0] [OfNat α 1] [OfNat α 2] (p_anc : List α) (ploidy : α) : α :=
-  let G_scale := (1 / (2 * (Np.dot p_anc (List.map (fun x => 1 - x) p_anc))))
+def vanraden_scale {α : Type} [Add α] [Sub α] [Mul α] [Div α] [OfNat α 0] [OfNat α 1] (p_anc : List α) (ploidy : α) : α :=
+  let G_scale := (1 / (ploidy * (Np.dot p_anc (List.map (fun x => 1 - x) p_anc))))
   G_scale
 
 /-- pybrops/popgen/cmat/DenseVanRadenCoancestryMatrix.py :: DenseVanRadenCoancestryMatrix.from_gmat; model counterpart: G = G_scale * zz -/
